@@ -345,7 +345,40 @@ def correspondence(pid, tier, seed, res, lines_extra=None):
             txt += "note: shrunk case no longer disagrees; original kept\n"
         res.violation(txt, tail)
         reported += 1
+    # input distribution of this run: which operations, over which kinds of field, how long, and what came back
+    import collections
+    op_hist, reply_hist, field_hist, lens = collections.Counter(), collections.Counter(), collections.Counter(), []
+    for i, l in enumerate(lines):
+        if not l.startswith("hist "):
+            continue
+        head, _, rest = l.partition(" | ")
+        field_hist[head.split()[1].split(",")[0].split(":")[0] if len(head.split()) > 1 else "?"] += 1
+        ops_ = [o.strip() for o in rest.split(" | ")]
+        lens.append(len(ops_))
+        body = go[i].rpartition(" ## ")[0] if (" ## " in go[i] and not head.endswith(" 1")) else go[i]
+        reps = body.split(" | ")
+        for j, o in enumerate(ops_):
+            t0_ = o.split()[0] if o.split() else "?"
+            name = t0_.split("=")[1] if "=" in t0_ else t0_
+            op_hist[name.split("@")[0]] += 1
+            if j < len(reps):
+                r = reps[j].split(" ## ")[0].split()
+                if r:
+                    k = r[0]
+                    if k == "err" and len(r) > 1:
+                        k = "err " + r[1]
+                    elif k in ("ok", "recv", "other") and len(r) > 1 and "!" in r[1]:
+                        k = k + " !" + r[1].split("!")[-1]      # a result that carries an error status
+                    reply_hist[k] += 1
+    lens.sort()
+    distribution = {
+        "operations_by_name": dict(op_hist.most_common(40)),
+        "replies_by_kind": dict(reply_hist.most_common(40)),
+        "histories_by_field_kind": dict(field_hist),
+        "history_length_min_median_max": ([lens[0], lens[len(lens) // 2], lens[-1]] if lens else []),
+    }
     cov = {
+        "input_distribution": distribution,
         "evaluations": len(lines), "operations": nops, "distinct_nontrivial": distinct,
         "rule": "case lines generated by tools/gen.py:gen_%s from VERIF_SEED plus corpus/%s.txt; a case is non-trivial if the model accepts it (not a malformed line); distinct = distinct case lines" % (pid, pid),
         "case_kinds": kinds, "corpus_cases": len(corpus), "bounded_exhaustive_cases": n_exh, "disagreements": len(dis), "inconclusive_fuel_or_timeout": inconclusive,
